@@ -33,18 +33,20 @@ SENTINEL = -9.0e9
 
 
 # ------------------------------------------------------------------ grids
-def locs_and_grid(g):
-    """-> (finam grid, flat locations (n, dim), data_shape, order)"""
+def locs_and_grid(g, sc=1.0):
+    """-> (finam grid, flat locations (n, dim), data_shape, order). sc = length unit: the finam grid is built with all
+    coordinates multiplied by sc, the returned reference locations stay unscaled (nearest / inside-hull relations and
+    affine fields are invariant under a change of the length unit)"""
     import finam as fm
 
     if g["kind"] == "struct":
         cfg = g["cfg"]
-        grid = hg.build(cfg)
+        grid = hg.build(hg.scaled(cfg, sc))
         _LOC, shape, order = hg.ref(cfg)
         return grid, hg.flat_locs(cfg), tuple(shape), order
     if g["kind"] == "upoints":
         pts = np.asarray(g["pts"], float)
-        return fm.UnstructuredPoints(pts, order=g.get("order", "C")), pts, (len(pts),), g.get("order", "C")
+        return fm.UnstructuredPoints(pts * sc, order=g.get("order", "C")), pts, (len(pts),), g.get("order", "C")
     # unstructured cells on a jittered lattice
     nx, ny = g["nx"], g["ny"]
     jit = g["jit"]
@@ -67,7 +69,7 @@ def locs_and_grid(g):
                 types.append(fm.CellType.QUAD)
     width = max(len(c) for c in cells)
     padded = [c + [-1] * (width - len(c)) for c in cells]  # mixed meshes: unused entries are -1
-    grid = fm.UnstructuredGrid(pts, padded, types, data_location=g["loc"], order=g.get("order", "C"))
+    grid = fm.UnstructuredGrid(pts * sc, padded, types, data_location=g["loc"], order=g.get("order", "C"))
     if g["loc"] == "POINTS":
         return grid, pts, (len(pts),), g.get("order", "C")
     centers = np.array([pts[c].mean(axis=0) for c in cells])
@@ -95,8 +97,11 @@ def to_shape(flat, shape, order):
 def check(case, ctx):
     import finam as fm
 
-    sg, S, sshape, sorder = locs_and_grid(case["src"])
-    tg, T, tshape, torder = locs_and_grid(case["tgt"])
+    sc = float(case.get("scale", 1.0))
+    if sc != 1.0:
+        ctx.event(f"length-unit={sc}")
+    sg, S, sshape, sorder = locs_and_grid(case["src"], sc)
+    tg, T, tshape, torder = locs_and_grid(case["tgt"], sc)
     ns, nt = len(S), len(T)
     smask = mask_from_bits(case["smask"], ns, sshape, sorder, force=(case["method"] == "linear" and case["src"]["kind"] == "struct"))
     tmask = mask_from_bits(case["tmask"], nt, tshape, torder)
@@ -166,7 +171,7 @@ def check(case, ctx):
     inp2 = None
     if case.get("twin") and case["tgt"]["kind"] == "struct" and case["tgt"]["cfg"]["cls"] != "esri" and meta == "both" and tmask is None:
         # a second consumer of the same adapter: equal grid, but flattened in the other order
-        cfg2 = dict(case["tgt"]["cfg"], order=("C" if torder == "F" else "F"))
+        cfg2 = dict(hg.scaled(case["tgt"]["cfg"], sc), order=("C" if torder == "F" else "F"))
         inp2 = fm.Input(name="j", info=fm.Info(time=hs.T0, grid=hg.build(cfg2), units="m", mask=fm.Mask.FLEX))
         ada >> inp2
         ctx.event("two-targets-different-order")
@@ -309,6 +314,7 @@ def nearest_case(draw):
         "tmask": draw(st.one_of(st.none(), st.none(), st.integers(1, 2**40))),
         "method": "nearest",
         "fill": False,
+        "scale": draw(st.sampled_from([1.0, 1.0, 1.0, 1.0e-9, 1.0e-6, 1.0e3, 1.0e6])),
         "meta": draw(st.sampled_from(["both", "both", "consumer-open", "producer-open"])),
         "tmask_by": draw(st.sampled_from(["consumer", "consumer", "adapter", "both"])),
         "twin": draw(st.sampled_from([None, None, "first", "second"])),
@@ -347,6 +353,7 @@ def linear_case(draw):
         "tmask": draw(st.one_of(st.none(), st.none(), st.none(), st.integers(1, 2**40))),
         "method": "linear",
         "fill": draw(st.booleans()),
+        "scale": draw(st.sampled_from([1.0, 1.0, 1.0, 1.0e-3, 1.0e3])),  # (Qhull's own precision limits tinier units)
         "meta": draw(st.sampled_from(["both", "both", "consumer-open", "producer-open"])),
         "tmask_by": draw(st.sampled_from(["consumer", "consumer", "adapter", "both"])),
         "twin": draw(st.sampled_from([None, None, "first", "second"])),
@@ -429,7 +436,8 @@ def check_large(case, ctx):
     ctx.nontrivial(True)
     ctx.event(f"{method}: {ns} -> {nt} locations, {dim}D")
     coef = np.array([1.5, -2.0, 0.75])[:dim]
-    wloc = np.array([1.0e6, 1.0e3, 1.0])[:dim]  # nearest: the value encodes the location (coordinates < 1000, distinct)
+    unit = float(case.get("unit", 1.0))  # length unit of the lattice: tie tolerance and value coding are relative to it
+    wloc = np.array([1.0e6, 1.0e3, 1.0])[:dim] / unit  # nearest: the value encodes the location (distinct per node)
     vals = S @ wloc if method == "nearest" else S @ coef + 3.0
     keep = np.ones(ns, bool) if smask is None else ~smask
     data = vals.copy()
@@ -470,12 +478,12 @@ def check_large(case, ctx):
             i = np.clip(np.searchsorted(c, T[:, d]), 1, len(c) - 1) if len(c) > 1 else np.zeros(nt, int)
             two = np.stack([c[np.maximum(i - 1, 0)], c[i]], axis=1)
             dist = np.abs(two - T[:, d][:, None])
-            two[dist > dist.min(axis=1)[:, None] + 1e-9] = np.nan
+            two[dist > dist.min(axis=1)[:, None] + 1e-9 * unit] = np.nan
             cand.append(two)
         okv = np.zeros(nt, bool)
         for combo in itertools.product((0, 1), repeat=dim):
             v = sum(cand[d][:, combo[d]] * wloc[d] for d in range(dim))
-            okv |= np.isclose(v, got, rtol=0, atol=1e-6)
+            okv |= np.isclose(v, got, rtol=1e-12, atol=1e-6)
         bad = np.nonzero(tkeep & ~okv)[0].tolist()
     elif int(tkeep.sum()) > 4000:
         raise AssertionError("harness: brute-force reference only for coarse targets")
@@ -485,15 +493,15 @@ def check_large(case, ctx):
         if not len(idx):
             continue
         D = np.sqrt(((T[idx][:, None, :] - Ssel[None, :, :]) ** 2).sum(axis=2))
-        near = D <= D.min(axis=1)[:, None] + 1e-9
+        near = D <= D.min(axis=1)[:, None] + 1e-9 * unit
         if method == "nearest":
-            okv = np.any(near & np.isclose(vsel[None, :], got[idx][:, None], rtol=0, atol=1e-6), axis=1)
+            okv = np.any(near & np.isclose(vsel[None, :], got[idx][:, None], rtol=1e-12, atol=1e-6), axis=1)
         else:
             outside = np.any((T[idx] < lo - 1e-6) | (T[idx] > hi + 1e-6), axis=1)  # outside the bounding box => outside the hull
             inside = np.all((T[idx] > inner_lo) & (T[idx] < inner_hi), axis=1)  # well inside 90000 quasi-random points' hull
             aff = T[idx] @ coef + 3.0
             ok_in = np.abs(got[idx] - aff) <= 1e-7 * np.maximum(1.0, np.abs(aff))
-            ok_out = np.any(near & np.isclose(vsel[None, :], got[idx][:, None], rtol=0, atol=1e-6), axis=1)
+            ok_out = np.any(near & np.isclose(vsel[None, :], got[idx][:, None], rtol=1e-12, atol=1e-6), axis=1)
             okv = np.where(inside, ok_in, np.where(outside, ok_out, True))  # the rim between is not judged
         bad += idx[~okv].tolist()
     if bad:
@@ -515,6 +523,16 @@ def enum_large(tier):
     yield {"src": {"kind": "uni", "dims": [42, 42, 41], "spacing": [1.0, 1.0, 1.0], "origin": [0.0, 0.0, 0.0]}, "tgt": {"kind": "uni", "dims": [7, 6, 7], "spacing": [6.1, 7.3, 5.9], "origin": [0.4, 0.2, 0.3]}, "method": "nearest", "smask": (1, 7)}
     yield {"src": coarse, "tgt": dict(fine, dims=[281, 280], origin=[2.0, 3.0]), "method": "nearest", "tmask": (1, 9)}  # coarse to fine
     yield {"src": fine, "tgt": dict(fine, dims=[271, 281], spacing=[1.1, 1.05], origin=[0.3, 0.2], order="C"), "method": "nearest"}  # fine to fine
+    # near ties: every target sits 2 millionths of a cell off the bisector of two source cells (1 km cells, 2 mm)
+    km = {"kind": "uni", "dims": [31, 29], "spacing": [1000.0, 1000.0], "origin": [0.0, 0.0]}
+    for off in (500.002, 499.998):
+        yield {"src": km, "tgt": dict(km, dims=[29, 27], origin=[off, off], order="C"), "method": "nearest"}
+        yield {"src": dict(km, order="C", rev=True, inc=[False, True]), "tgt": dict(km, dims=[29, 27], origin=[off, 250.0]), "method": "nearest", "tmask": (1, 5)}
+    # nanometre and megametre lattices (identity between layouts and a shifted target)
+    for unit in (2.0e-9, 3.0e6):
+        g = {"kind": "uni", "dims": [6, 7], "spacing": [unit, unit], "origin": [0.0, unit]}
+        yield {"src": g, "tgt": dict(g, order="C", rev=True, inc=[False, True]), "method": "nearest", "unit": unit}
+        yield {"src": g, "tgt": dict(g, origin=[0.3 * unit, 1.2 * unit]), "method": "nearest", "unit": unit}
 
 
 def parts():
